@@ -170,10 +170,10 @@ def _touch_state(ex):
         st['calls'] = st.get('calls', 0) + 1
 
 
-def task(*args, _layout=None, **kwargs):
+def task(*args, _layout=None, _fn='task', **kwargs):
     ex, targs = split_extras(args, _layout)
     key = targs[0] if targs and isinstance(targs[0], int) else (kwargs.get('i') if kwargs else None)
-    _log('task', args=canon(targs), kwargs=canon(kwargs), **_describe_extras(ex))
+    _log('task', fn=_fn, args=canon(targs), kwargs=canon(kwargs), **_describe_extras(ex))
     _touch_state(ex)
     _misbehave('task', key)
     d = float(os.environ.get('VERIF_TASK_SLEEP', '0') or 0)
@@ -185,7 +185,7 @@ def task(*args, _layout=None, **kwargs):
 
 
 def task2(*args, _layout=None, **kwargs):
-    r = task(*args, _layout=_layout, **kwargs)
+    r = task(*args, _layout=_layout, _fn='task2', **kwargs)
     r[0] = 'Q'
     return r
 
